@@ -290,6 +290,10 @@ class Evaluator:
         for s, v in self.ev(e["e"], st):
             if self.ints and v[0] == "lit" and isinstance(v[1], str) and len(v[1]) == 1 and strip_k(e["e"]).get("lit") != "str":
                 yield s, ("lit", ord(v[1]))          # `ch as u32`
+            elif self.ints and v[0] == "ord" and all(x[0] == "lit" and isinstance(x[1], int) and not isinstance(x[1], bool) for x in v[1:3]):
+                yield s, ("lit", (v[1][1] > v[2][1]) - (v[1][1] < v[2][1]))     # `a.cmp(&b) as isize`: Less = -1, Equal = 0, Greater = 1
+            elif self.ints and v[0] == "v" and v[1] in ("Less", "Equal", "Greater") and not v[2] and "Ordering" in self.node_type(strip_k(e["e"])):
+                yield s, ("lit", {"Less": -1, "Equal": 0, "Greater": 1}[v[1]])
             else:
                 yield s, v
 
@@ -781,6 +785,19 @@ class Evaluator:
             if r[0] == "lit":
                 yield s, r
                 return
+        # growable vectors as concrete sequences (opt-in: `ev.vecs = True`): Vec::new() / with_capacity(n) / push on a local
+        if getattr(self, "vecs", False):
+            if method in ("new", "with_capacity", "default") and re.search(r"\bvec::Vec\b", c) and len(args) <= 1:
+                yield s, ("array", [])
+                return
+            if method == "push" and seq0 is not None and len(args) == 2 and getattr(self, "recv_local", None) and re.search(r"\bvec::Vec\b", c):
+                s2 = s.fork()
+                s2.env[self.recv_local] = ("array", list(seq0) + [args[1]])
+                yield s2, ("unit",)
+                return
+            if method in ("len", "is_empty") and seq0 is not None and len(args) == 1:
+                yield s, (("lit", len(seq0)) if method == "len" else mk_bool(not seq0))
+                return
         if seq0 is not None and method in ("iter", "into_iter", "to_vec", "as_slice", "iter_mut", "cloned", "copied", "as_ref", "by_ref", "deref", "clone") and len(args) == 1:
             yield s, ("iterv", list(seq0))
         elif seq0 is not None and method == "enumerate" and len(args) == 1:
@@ -1016,6 +1033,9 @@ class Evaluator:
                     yield s, (r if r is not None else recv)
                     continue
                 if method == "cmp" and len(args) == 1:
+                    if self.ints and all(x[0] == "lit" and isinstance(x[1], int) and not isinstance(x[1], bool) for x in (recv, args[0])):
+                        yield s, ("v", "Less" if recv[1] < args[0][1] else "Greater" if recv[1] > args[0][1] else "Equal", [])
+                        continue
                     yield s, ("ord", recv, args[0])
                     continue
                 if method in ("eq", "ne") and len(args) == 1:
